@@ -49,6 +49,7 @@ def worker(task):
         sx.reset_stats()
         first = [want_profile]
         nfail = [0]
+        ncross = [0]
 
         def fn():
             src = scen.SymSource()
@@ -74,6 +75,23 @@ def worker(task):
                 allowed = getattr(mod, 'exception_allowed', None)
                 if allowed is not None and allowed(q, exc.exc):
                     res['wit'] = ['allowed_exception']
+                    if hasattr(mod, 'cross_check') and ncross[0] < 2:
+                        ncross[0] += 1
+                        m = sx.model_dict(ctx.get_model())
+                        saved_cur = sx.CUR
+                        inject.uninstall()
+                        sx.CUR = None
+                        try:
+                            okc = mod.cross_check(q, m)
+                        finally:
+                            sx.CUR = saved_cur
+                            inject.install(getattr(mod, 'EXTRA_STUBS', None))
+                        if okc:
+                            res['wit'].append('rejection_confirmed_on_real_code')
+                        else:
+                            raise sx.EngineUnsupported(
+                                "symbolic path raised %r but the real code accepts the same inputs %r"
+                                % (exc.exc, m))
                 else:
                     m = ctx.get_model()
                     res['fails'].append(('no_exception', sx.model_dict(m), repr(exc.exc)))
